@@ -9,6 +9,7 @@ import (
 	"sort"
 	"strings"
 	"sync"
+	"sync/atomic"
 	"time"
 
 	"github.com/sheerbytes/sheerbytes/internal/transfer"
@@ -50,6 +51,13 @@ type crashRun struct {
 	flushProb int
 	maxSnaps  int
 	active    bool
+	// straggler: one chunk write is held back until a few later chunks of the same run
+	// were written and marked (a slow stream) - interrupted runs then have HOLES below
+	// the highest completed chunk, as a multi-stream transfer over a real network has
+	straggle bool
+	victim   uint32
+	held     bool
+	marks    int64
 }
 
 func copyTree(src, dst string, metaFirst bool) error {
@@ -96,6 +104,24 @@ func copyTree(src, dst string, metaFirst bool) error {
 func (cr *crashRun) handler(name string, args ...any) {
 	if !strings.HasPrefix(name, "recv.chunk") && !strings.HasPrefix(name, "sidecar.") && name != "recv.finalize" {
 		return
+	}
+	if name == "recv.chunk.marked" {
+		atomic.AddInt64(&cr.marks, 1)
+	}
+	if name == "recv.chunk.before_write" && cr.straggle && len(args) > 1 {
+		if idx, ok := args[1].(uint32); ok && idx == cr.victim {
+			cr.mu.Lock()
+			first := !cr.held && cr.active
+			cr.held = true
+			cr.mu.Unlock()
+			if first {
+				start := atomic.LoadInt64(&cr.marks)
+				dl := time.Now().Add(60 * time.Millisecond)
+				for atomic.LoadInt64(&cr.marks) < start+3 && time.Now().Before(dl) {
+					time.Sleep(200 * time.Microsecond)
+				}
+			}
+		}
 	}
 	cr.mu.Lock()
 	if !cr.active {
@@ -230,6 +256,10 @@ func runCrashWorkload(base string, w c05workload, rep *hx.Report, cf *hx.CasesFi
 		// what the metadata found on disk claims before this run
 		before := loadSidecars(out)
 		cr := &crashRun{outDir: out, snapRoot: filepath.Join(dir, fmt.Sprintf("snaps_%d_%d", p.depth, resumed)), rng: r.Fork(uint64(resumed)), flushProb: 35, maxSnaps: 40, active: true}
+		if w.streams > 1 && cr.rng.Intn(2) == 0 {
+			cr.straggle, cr.victim = true, uint32(cr.rng.Intn(3))
+			rep.Count("run-with-straggling-chunk")
+		}
 		verifhook.Set(cr.handler)
 		var recvSkipped, sendSkipped sync.Map
 		csRun := w.cs
@@ -294,9 +324,11 @@ func runCrashWorkload(base string, w c05workload, rep *hx.Report, cf *hx.CasesFi
 		snaps := append([]string{}, cr.snapDirs...)
 		events := append([]crashEvent{}, cr.events...)
 		cr.mu.Unlock()
+		holeResumes := 0
 		for si, sd := range snaps {
 			rep.Evaluations++
 			rep.Count("snapshot")
+			snapHasHole := false
 			// atomic replacement: whatever is found under a sidecar's FINAL name at any
 			// instant is a complete valid version (the previous one or the new one), never
 			// a torn or empty file
@@ -346,6 +378,18 @@ func runCrashWorkload(base string, w c05workload, rep *hx.Report, cf *hx.CasesFi
 							map[string]any{"workload": fmt.Sprintf("%+v", w), "from": p.label, "snapshot": si, "file": rel, "chunk": i})
 					}
 				}
+				hole, seenUnset := false, false
+				for _, b := range sv.bits {
+					if !b {
+						seenUnset = true
+					} else if seenUnset {
+						hole = true
+					}
+				}
+				if hole {
+					rep.Count("snapshot-metadata-with-hole")
+					snapHasHole = true
+				}
 				if marked > 0 && marked < len(sv.bits) {
 					rep.Nontrivial(fmt.Sprintf("%d/%d/%s/%s", w.seed, si, rel, bitsString(sv.bits)))
 				}
@@ -368,7 +412,14 @@ func runCrashWorkload(base string, w c05workload, rep *hx.Report, cf *hx.CasesFi
 					os.Remove(tp)
 				}
 			}
-			if p.depth < chain && si%5 == 2 && len(queue) < 6 {
+			// resume from a sample of the kill points, and preferably from those whose
+			// metadata has a hole below its highest recorded chunk (chunks completed out of order)
+			wantHole := snapHasHole && holeResumes < 2 && len(queue) < 9
+			if wantHole {
+				holeResumes++
+				rep.Count("resume-from-metadata-with-hole")
+			}
+			if p.depth < chain && ((si%5 == 2 && len(queue) < 6) || wantHole) {
 				queue = append(queue, pending{dir: sd, depth: p.depth + 1, label: fmt.Sprintf("%s>kill@%d", p.label, si)})
 			}
 		}
